@@ -349,7 +349,7 @@ def gen(props, tier, rng):
                     rule = {'id': abuf(rulegen.rbits(rng, rng.choice([1, 3, 8]))), 'nature': 'c', 'fields': rf}
                     yield f'schc roundtrip {e_packet(pkt)} {e_rule(rule)} # c01 c17'
     # ---------------------------------------------------------------- packets and rules shared by C01/C02/C03/C09/C20
-    need_pk = props & {'C01', 'C02', 'C03', 'C09', 'C20'}
+    need_pk = props & {'C01', 'C02', 'C03', 'C09', 'C18', 'C20'}
     if need_pk:
         NG = 150 if q else 1500
         NS = 60 if q else 500
@@ -423,6 +423,16 @@ def gen(props, tier, rng):
                     d = rng.choice('UD')
                     # the strategies may pick another matching rule of the set: all of them are lossless and fitting by construction
                     yield f'schc mroundtrip {esc(stack)} {e_rules(rs)} {raw} {d} {st} # {tags}'
+            if props & {'C01', 'C09', 'C18'}:
+                # Up / Dw alternatives in front of (and between) compute fields: positions of the compute fields count
+                # in the list of descriptors of the packet's direction, not in the whole rule
+                rd = _with_directions(rng, r, pkt, every_position=i)
+                co = any(f['cda'] == 'co' for f in rd['fields'])
+                tags = ('c01 ' if 'C01' in props else '') + ('c18 ' if 'C18' in props else '') + ('c09' if 'C09' in props and co else '')
+                for d in 'UD':
+                    yield f'schc droundtrip {e_packet(dict(pkt, dir=d))} {e_rule(rd)} # {tags}'
+                rsd = _ruleset_with(rng, pkt, rd)
+                yield f"schc mroundtrip {esc(stack)} {e_rules(rsd)} {raw} {rng.choice('UD')} {rng.choice(['first', 'best'])} # {tags.replace('c18 ', '')}"
             if 'C03' in props:
                 s = spec.ref_compress(pkt, r)
                 yield f'schc decompress R:{s} {e_rule(r)} # conforming'
@@ -477,6 +487,14 @@ def gen(props, tier, rng):
                 rules.append(rulegen.near_miss(rng, rulegen.derive_rule(rng, pkt, allow_compute=False), pkt)[0])
             if rng.random() < 0.5: rules.append(rulegen.default_rule(rulegen.rbits(rng, 5)))
             if rng.random() < 0.5: rules.append(_with_directions(rng, base, pkt))
+            # one unsatisfied descriptor of a given operator in an otherwise matching rule; and the converse: an
+            # `ignore` descriptor whose declared length is not the field's (ignore always holds)
+            sm = rulegen.single_miss(rng, base, pkt, ('eq', 'msb', 'mm')[i % 3])
+            if sm is not None: rules.append(sm)
+            if base['fields'] and i % 2:
+                ig = copy.deepcopy(base); f = rng.choice(ig['fields'])
+                f.update(mo='ig', cda='vs', tv=('b', 'L:'), len=rng.choice([0, f['len'] + 8, max(1, f['len'] // 2), 1]))
+                rules.append(ig)
             rng.shuffle(rules)
             for d in 'UD':
                 p2 = dict(pkt, dir=d)
@@ -624,6 +642,11 @@ def _gen_c15(rng, q):
         miss = [r for r in (rulegen.near_miss(rng, stack_rule(rng, pkt, compute_prob=0.0), pkt)[0] for _ in range(4)) if not spec.applicable(dict(pkt, dir='U'), r) and not spec.applicable(dict(pkt, dir='D'), r)]
         ids = rulegen.prefix_free_codes(rng, 8, maxlen=8)
         for k, r in enumerate(miss): r['id'] = abuf(ids[k])
+        # one descriptor of each operator kind that the packet does not satisfy, everything else matching
+        for kind in ('eq', 'msb', 'mm'):
+            sm = rulegen.single_miss(rng, good, pkt, kind)
+            if sm is not None and not spec.applicable(dict(pkt, dir='U'), sm) and not spec.applicable(dict(pkt, dir='D'), sm):
+                yield f"schc mcompress {esc(stack)} {e_rules([sm])} {raw} {rng.choice('UD')} {rng.choice(['first', 'best'])} # nomatch"
         for st in ('first', 'best'):
             if miss: yield f"schc mcompress {esc(stack)} {e_rules(miss)} {raw} {rng.choice('UD')} {st} # nomatch"
             short = raw[:2 + rng.choice([0, 8, 16, 24])]
